@@ -551,6 +551,13 @@ static bool deser_rec(const std::string& s, size_t& i, RV& out) {
 }
 bool rv_deser(const std::string& s, RV& out) { size_t i = 0; return deser_rec(s, i, out) && i == s.size(); }
 
+long L_value_end(const uint8_t* p, size_t n, bool skip_bom) {
+    size_t off = 0; if (skip_bom && n >= 3 && p[0] == 0xEF && p[1] == 0xBB && p[2] == 0xBF) off = 3;
+    P s{p + off, n - off}; s.lenient = true; s.ws();
+    if (!p_value(s, nullptr) || s.unknown) return -1;
+    return (long)(s.i + off);
+}
+
 // ------------------------------------------------------------------ walk
 namespace {
 void w_str(std::string& o, const char* s) { o += '"'; o += printable(s); o += '"'; }
